@@ -61,7 +61,7 @@ func isMsgKind(k string) bool {
 }
 
 // setScalar converts a wire scalar to a protoreflect value for the field (or list element).
-func scalarValue(s *Spec, fd protoreflect.FieldDescriptor, msg protoreflect.Message, raw string) (protoreflect.Value, error) {
+func scalarValue(s *Spec, fd protoreflect.FieldDescriptor, newMsg func() protoreflect.Message, raw string) (protoreflect.Value, error) {
 	switch s.Kind {
 	case "str", "key":
 		b, ok := vh.UnHex(raw)
@@ -114,12 +114,7 @@ func scalarValue(s *Spec, fd protoreflect.FieldDescriptor, msg protoreflect.Mess
 		if raw != "P" {
 			return protoreflect.Value{}, fmt.Errorf("bad message value %q", raw)
 		}
-		var m protoreflect.Message
-		if fd.IsList() {
-			m = msg.NewField(fd).List().NewElement().Message()
-		} else {
-			m = msg.NewField(fd).Message()
-		}
+		m := newMsg()
 		// the embedded message must itself be valid (protovalidate recurses into it)
 		switch s.Kind {
 		case "date":
@@ -144,13 +139,28 @@ func buildMessage(md protoreflect.MessageDescriptor, s *Spec, fd protoreflect.Fi
 	if v.Absent {
 		return msg, nil
 	}
+	if fd.IsMap() {
+		// a map is given by its values; keys k0, k1, ... (no rules on keys)
+		if !v.IsArr {
+			return nil, fmt.Errorf("scalar value for map field")
+		}
+		mp := msg.Mutable(fd).Map()
+		for i, it := range v.Items {
+			pv, err := scalarValue(s, fd.MapValue(), func() protoreflect.Message { return mp.NewValue().Message() }, it)
+			if err != nil {
+				return nil, err
+			}
+			mp.Set(protoreflect.ValueOfString(fmt.Sprintf("k%d", i)).MapKey(), pv)
+		}
+		return msg, nil
+	}
 	if fd.IsList() {
 		if !v.IsArr {
 			return nil, fmt.Errorf("scalar value for list field")
 		}
 		l := msg.Mutable(fd).List()
 		for _, it := range v.Items {
-			pv, err := scalarValue(s, fd, msg, it)
+			pv, err := scalarValue(s, fd, func() protoreflect.Message { return l.NewElement().Message() }, it)
 			if err != nil {
 				return nil, err
 			}
@@ -161,7 +171,7 @@ func buildMessage(md protoreflect.MessageDescriptor, s *Spec, fd protoreflect.Fi
 	if v.IsArr {
 		return nil, fmt.Errorf("list value for scalar field")
 	}
-	pv, err := scalarValue(s, fd, msg, v.Raw)
+	pv, err := scalarValue(s, fd, func() protoreflect.Message { return msg.NewField(fd).Message() }, v.Raw)
 	if err != nil {
 		return nil, err
 	}
@@ -535,6 +545,34 @@ func isZeroScalar(s *Spec, raw string) bool {
 // when it cannot, the candidate `~` denotes the very same message as the zero value and is
 // judged as such.
 func j5Accepts(s *Spec, v Val, hasPresence bool) (ok bool, why string, unknown bool) {
+	if s.Map {
+		n := uint64(len(v.Items))
+		if v.Absent {
+			n = 0
+		}
+		if s.Req && n == 0 {
+			return false, "required", false
+		}
+		if s.AMin != nil && n < *s.AMin {
+			return false, "map-pairs-count", false
+		}
+		if s.AMax != nil && n > *s.AMax {
+			return false, "map-pairs-count", false
+		}
+		for _, it := range v.Items {
+			if isMsgKind(s.Kind) {
+				continue
+			}
+			ok, why, unk := j5Item(s, it)
+			if unk {
+				return true, "", true
+			}
+			if !ok {
+				return false, "map-value:" + why, false
+			}
+		}
+		return true, "", false
+	}
 	if s.Arr {
 		n := uint64(len(v.Items))
 		if v.Absent {
